@@ -82,6 +82,18 @@ PROPS = {
                 "premise reached with application writes and downloads; distinct = distinct SHA-256 of the event log",
         "assumptions": FLEET_ASSUME,
     },
+    "C12": {
+        "level": "exploration",
+        "profiles": [{"name": "cleaner-sim", "weight": 2}, {"name": "fleet-cleaner", "weight": 2}, {"name": "fleet-receiveonly", "weight": 1}],
+        "rule": "cleaner-sim: each case is one seeded evolution of a bucket (1-4 instances publishing in timestamp order and going silent, "
+                "foreign and near-miss object names, deletions by others) against the real cleaner.Worker.Run on the fake clock, with generated "
+                "interval configurations, late/partial merge-commit notifications and failing, slow or lagging List/Delete calls; every Delete the "
+                "cleaner issues is judged by a reference permission model written from the statement, and superseded files must be gone after a "
+                "fault-free settling time; fleet-cleaner: the cleaners of real instances in a fleet run are judged by the same model against what the instance really merged and uploaded; fleet-receiveonly: a receive-only instance in a real fleet must never store or delete; non-trivial = the "
+                "cleaner issued at least one Delete (or the receive-only instance merged a snapshot); distinct = distinct SHA-256 of the event log",
+        "real": "cleaner.Worker (Run, RunOnce, SetCommitted), snapshot.ParseName, utils.SleepContextPerturb; fleet-receiveonly: the whole syncer",
+        "assumptions": ["a file is 'first seen' when the cleaner issues the List call that first returns it"],
+    },
 }
 
 ALL_PROFILES = sorted({p["name"] for c in PROPS.values() for p in c["profiles"]})
